@@ -599,6 +599,10 @@ def cfg_specs(ctx, n):
         dict(base, method="custom", edges=[0.1, 0.2, 0.4]),
         dict(base, method="linear", zmin=0.07000000023, zmax=1.42, num_bins=5),
         dict(base, method="linear", zmin=0.1, zmax=1.9, num_bins=3, closed="left", cosmology="WMAP9", max_workers=3),
+        # values that are valid but falsy / at the boundary of their range
+        dict(base, method="linear", zmin=0.0, zmax=1.0, num_bins=1, rweight=0.0, resolution=1, max_workers=1),
+        dict(base, method="linear", zmin=0.0, zmax=0.5, num_bins=2, rweight=-0.0, resolution=0),
+        dict(base, method="custom", edges=[0.0, 0.25], rweight=1.0, resolution=2, rmin=0.5, rmax=1),
     ]
     methods = ["linear", "comoving", "logspace", "custom"]
     for i in range(n):
@@ -609,7 +613,7 @@ def cfg_specs(ctx, n):
         if nsc == 1 and rng.random() < 0.6:
             rmin, rmax = rmin[0], rmax[0]
         spec = dict(rmin=rmin, rmax=rmax, unit=UNITS[(i // 8) % len(UNITS)],
-                    rweight=rng.choice([None, None, -1.0, 0.5]), resolution=rng.choice([None, None, 10, 50]),
+                    rweight=rng.choice([None, None, -1.0, 0.5, 0.0, 1.0, -0.0]), resolution=rng.choice([None, None, 10, 50, 1, 0]),
                     closed=["right", "left"][(i // 4) % 2], max_workers=rng.choice([None, None, 1, 4]),
                     cosmology=COSMO[(i // 4) % len(COSMO)], method=method)
         if method == "custom":
@@ -619,7 +623,7 @@ def cfg_specs(ctx, n):
                 e.append(e[-1] + rng.choice([0.1, 0.25, rng.uniform(0.01, 0.5)]))
             spec["edges"] = [float(x) for x in e]
         else:
-            zmin = rng.choice([0.01, 0.1, 0.2, round(rng.uniform(0.01, 1.0), 2), rng.uniform(0.01, 1.0), 0.07000000023])
+            zmin = rng.choice([0.01, 0.1, 0.2, round(rng.uniform(0.01, 1.0), 2), rng.uniform(0.01, 1.0), 0.07000000023] + ([0.0] if method != "logspace" else []))
             zmax = zmin + rng.choice([0.5, 1.0, round(rng.uniform(0.1, 2.0), 2), rng.uniform(0.1, 2.0)])
             spec.update(zmin=float(zmin), zmax=float(zmax), num_bins=rng.choice([1, 2, 3, 5, 8, 13, 30]))
         out.append(spec)
